@@ -126,3 +126,5 @@ example : holds_C03 false
 end Fc
 
 #print axioms Fc.C03_discipline_group
+#print axioms Fc.C03g_needs_fresh
+#print axioms Fc.C03g_needs_kind
